@@ -138,7 +138,11 @@ def check_layout(res, layout, opts, how, cmds, obs):
         for other in ('', 'elsewhere'):
             if optree.tree_leaves(x, namespace=other) != [x]:
                 res.fail('dataclass is a node outside its namespace', case, tag)
-        back = spec.unflatten(ls)
+        rb = attempt(lambda: spec.unflatten(ls))
+        if rb[0] != 0:
+            res.fail('unflatten of a flattened dataclass raised', case, f'{tag} {rb}')
+            return
+        back = rb[1]
         if type(back) is not cls or len(calls) != ncalls + 1:
             res.fail('unflatten does not rebuild an instance of the class with __post_init__ re-run', case,
                      f'{tag} type={type(back).__name__} post_calls={len(calls) - ncalls}')
@@ -147,7 +151,8 @@ def check_layout(res, layout, opts, how, cmds, obs):
                        for i in range(len(layout)))
             if not same or (opts.get('eq', True) and back != x):
                 res.fail('unflatten(flatten(x)) is not equal to x', case, tag)
-        mapped = optree.tree_map(lambda v: ('m', v), x, namespace=NS)
+        rm = attempt(lambda: optree.tree_map(lambda v: ('m', v), x, namespace=NS))
+        mapped = rm[1] if rm[0] == 0 else None
         if type(mapped) is not cls:
             res.fail('tree_map over a dataclass does not rebuild the class', case, tag)
         # otherwise the class dataclasses.dataclass would produce
@@ -173,6 +178,34 @@ def check_layout(res, layout, opts, how, cmds, obs):
             res.fail('decorating a class twice is not rejected with TypeError', case, f'{tag} {r3}')
     finally:
         optree.unregister_pytree_node(cls, namespace=NS)
+
+
+def custom_init_checks(res):
+    """init=False on the decorator with a hand-written __init__ whose parameter order differs from the
+    field order, and classes without metadata fields (positional fast paths must not be taken)"""
+    for variant in range(4):
+        res.evaluations += 1
+
+        class R:
+            a: object
+            b: object
+            c: object = od.field(default=None, pytree_node=(variant % 2 == 0))
+
+            def __init__(self, c=None, b=None, a=None):
+                self.a, self.b, self.c = a, b, c
+        cls = od.dataclass(R, init=False, namespace=NS, eq=True)
+        try:
+            x = cls(a=world.Opaque(1), b=world.Opaque(2), c=world.Opaque(3))
+            ls, spec = optree.tree_flatten(x, namespace=NS)
+            rb = attempt(lambda: spec.unflatten(ls))
+            if rb[0] != 0 or rb[1] != x or any(getattr(rb[1], n) is not getattr(x, n) for n in 'abc'):
+                res.fail('round trip of a dataclass with a hand-written __init__ permutes or loses fields', f'custom-init variant {variant}', rb)
+            new = [world.Opaque(50 + i) for i in range(len(ls))]
+            r2 = attempt(lambda: optree.tree_leaves(spec.unflatten(new), namespace=NS))
+            if r2[0] != 0 or any(p is not q for p, q in zip(r2[1], new)):
+                res.fail('replacement leaves do not come back in order for a dataclass with a hand-written __init__', f'custom-init variant {variant}')
+        finally:
+            optree.unregister_pytree_node(cls, namespace=NS)
 
 
 def partial_checks(res, rng):
@@ -268,6 +301,7 @@ def run(res, tier, seed):
     res.evaluations += 1
     if r[0] == 0 or r[1:] != (1,):
         res.fail('an empty namespace is not rejected with ValueError', 'namespace=""', r)
+    custom_init_checks(res)
     partial_checks(res, rng)
     res.notes.append(f'all layouts of <= {min(maxf, 2)} fields enumerated; {maxf}-field layouts sampled (3000)')
     for c in cmds[3:6]:
